@@ -39,6 +39,8 @@ type tracker struct {
 	s         *refSet
 	wasDense  map[uint32]bool // the bucket's previous incarnation was a bitmap when it vanished
 	convCount map[uint32]int  // conversions seen per bucket key
+	cycles    map[uint32]int  // bulk drains that followed a bulk fill, per bucket
+	lastBulk  map[uint32]string
 	labels    []string
 	event     string // last event since the last mutation line
 }
@@ -83,6 +85,8 @@ func (t *tracker) note(v uint32, add, bulk bool) {
 			t.ev("duplicate " + how + " at fill 4095")
 		case !dense && c == 4095:
 			t.ev(how + " at fill 4095 (reaches 4096, stays an array)")
+		case dense && c == 4096 && !present:
+			t.ev("dense bucket refilled across 4096 while a bitmap (" + how + ")")
 		case dense && present && !bulk:
 			t.ev("duplicate add to a dense bucket")
 		case dense && !bulk:
@@ -93,6 +97,9 @@ func (t *tracker) note(v uint32, add, bulk bool) {
 			t.convCount[h]++
 			if t.convCount[h] > 1 {
 				t.ev("second conversion of the same bucket key (dense → vanished → array → dense)")
+			}
+			if t.convCount[h] > 2 {
+				t.labels = append(t.labels, "bucket key converted ≥3 times")
 			}
 		}
 		return
@@ -121,6 +128,9 @@ func (t *tracker) note(v uint32, add, bulk bool) {
 			t.wasDense[h] = true
 		}
 		t.labels = append(t.labels, kind+" bucket emptied")
+		if len(s.cnt) >= 100 {
+			t.labels = append(t.labels, "bucket removed with ≥100 buckets present: "+keyPos(s, h))
+		}
 		t.ev("bucket removed (" + how + "): " + keyPos(s, h) + ", " + kind)
 	case c == 2 && dense:
 		t.ev("dense bucket drained to exactly 1")
@@ -132,8 +142,53 @@ func (t *tracker) note(v uint32, add, bulk bool) {
 	s.rm(v)
 }
 
+// sizeLabels names the large shapes an enumeration / dump runs over.
+func (t *tracker) sizeLabels(op string) {
+	s := t.s
+	if len(s.cnt) >= 300 {
+		t.labels = append(t.labels, op+" over ≥300 buckets")
+	}
+	for h, n := range s.cnt {
+		if n >= 60000 {
+			lab := op + " over a bucket with ≥60000 members"
+			if n == 65536 {
+				lab = op + " over a completely full bucket (65536)"
+			}
+			t.labels = append(t.labels, lab)
+		}
+		if !s.conv[h] || n > 64 {
+			continue
+		}
+		// word occupancy of a nearly empty bitmap container
+		occ := map[uint32]bool{}
+		for _, v := range s.bucket(h) {
+			occ[(v&0xFFFF)>>6] = true
+		}
+		t.labels = append(t.labels, op+" over a dense bucket with ≤64 members (long empty word runs)")
+		lone3, only := false, true
+		for w := range occ {
+			if w%4 == 3 && !occ[w-1] && !occ[w-2] && !occ[w-3] {
+				lone3 = true
+			}
+			if w != 0 && w != 1023 {
+				only = false
+			}
+		}
+		if lone3 {
+			t.labels = append(t.labels, op+" over a dense bucket: word ≡3 mod 4 occupied, its 3 lower neighbours empty")
+		}
+		if only && occ[0] && occ[1023] {
+			t.labels = append(t.labels, op+" over a dense bucket: members only in words 0 and 1023")
+		}
+		if len(occ) == 1 {
+			t.labels = append(t.labels, op+" over a dense bucket: a single occupied word")
+		}
+	}
+}
+
 func classify(c core.Case, out []string) []string {
-	t := &tracker{s: newRef(), wasDense: map[uint32]bool{}, convCount: map[uint32]int{}}
+	t := &tracker{s: newRef(), wasDense: map[uint32]bool{}, convCount: map[uint32]int{}, cycles: map[uint32]int{}, lastBulk: map[uint32]string{}}
+	prevLine, repeat := "", 0
 	prev := ""
 	for i, l := range c.Lines[1:] {
 		tk := core.Toks(l)
@@ -148,6 +203,22 @@ func classify(c core.Case, out []string) []string {
 			}
 			if isBoundary(v) {
 				t.labels = append(t.labels, fmt.Sprintf("boundary value 0x%X (%s)", v, tk[0]))
+			}
+			if lo := v & 0xFFFF; (lo == 0 || lo == 1 || lo == 0xFFFF) && (lo != 1 || v > 1) {
+				where := map[uint32]string{0xFFFF: "k·65536−1", 0: "k·65536", 1: "k·65536+1"}[lo]
+				kind := "sparse/absent"
+				if t.s.conv[v>>16] {
+					kind = "dense"
+				}
+				t.labels = append(t.labels, "magnitude "+where+" ("+tk[0]+", "+kind+" bucket)")
+			}
+			if l == prevLine {
+				repeat++
+				if repeat == 2 {
+					t.labels = append(t.labels, "same "+tk[0]+" repeated ≥3 times in a row")
+				}
+			} else {
+				prevLine, repeat = l, 0
 			}
 			if tk[0] != "has" {
 				t.event = ""
@@ -172,6 +243,18 @@ func classify(c core.Case, out []string) []string {
 			if wasDense {
 				t.labels = append(t.labels, "bulk "+tk[0]+" on a dense bucket")
 			}
+			hk := uint32(a.hi)
+			if tk[0] == "drain" && t.lastBulk[hk] == "fill" {
+				t.cycles[hk]++
+				if n := t.cycles[hk]; n == 5 || n == 10 || n == 15 {
+					kind := "sparse"
+					if wasDense {
+						kind = "dense"
+					}
+					t.labels = append(t.labels, fmt.Sprintf("fill–drain cycle #%d on the same bucket (%s)", n, kind))
+				}
+			}
+			t.lastBulk[hk] = tk[0]
 			if a.n == 65536 && a.step == 1 {
 				t.labels = append(t.labels, "full-range drain/fill of a bucket")
 			}
@@ -181,6 +264,7 @@ func classify(c core.Case, out []string) []string {
 				lab += " (dense present)"
 			}
 			t.labels = append(t.labels, lab)
+			t.sizeLabels("rep")
 		case "iter", "range", "all", "iterk":
 			nb := len(t.s.cnt)
 			dense := len(t.s.conv)
@@ -197,6 +281,10 @@ func classify(c core.Case, out []string) []string {
 				lab += " (dense present)"
 			}
 			t.labels = append(t.labels, lab)
+			t.sizeLabels(tk[0])
+			if tk[0] == "iterk" && (prev == "add" || prev == "rm" || prev == "fill" || prev == "drain") {
+				t.labels = append(t.labels, "iterator created and dropped directly after a mutation")
+			}
 			if nb >= 5 {
 				t.labels = append(t.labels, "enumeration over ≥5 buckets")
 			}
